@@ -38,8 +38,9 @@ func VerifC32Retention() {
 	// MaxTime relative to "now" (whole seconds) plus a millisecond part, so that a counterexample replays
 	// against the real clock
 	off := verifInt64("maxTimeOffsetSec")
-	verifAssume(off >= -200000)
-	verifAssume(off <= 200000)
+	// any distance up to 2^42 s (about 139000 years) into the past or the future
+	verifAssume(off >= -(1 << 42))
+	verifAssume(off <= 1<<42)
 	msPart := verifInt64("maxTimeMsPart")
 	verifAssume(msPart >= 0)
 	verifAssume(msPart <= 999)
